@@ -260,6 +260,7 @@ func c15Run(n *nhNode, cs c15Case) (key, desc string, nrep int) {
 	}()
 	exp := c15Expected(cs)
 	wantDst := s.Rpt
+	sawDelivered := false
 	for _, sd := range sends {
 		rb, err := ref.Decode(sd.Enc)
 		if err != nil {
@@ -308,6 +309,7 @@ func c15Run(n *nhNode, cs c15Case) (key, desc string, nrep int) {
 		if rep.Multiple {
 			return "report-asserts-several-events", tag, nrep
 		}
+		sawDelivered = sawDelivered || rep.Status == 2
 		if rep.HasTime != cs.Time {
 			return fmt.Sprintf("report-time-present=%v-requested=%v", rep.HasTime, cs.Time), tag, nrep
 		}
@@ -322,7 +324,11 @@ func c15Run(n *nhNode, cs c15Case) (key, desc string, nrep int) {
 	}
 	// the delivered scenario really delivered (non-vacuity of the harness)
 	if cs.Outcome == "delivered" && !cs.Admin && n.agent != nil && !n.agent.waitBundles(agentBefore+1) {
-		return "harness-not-delivered", "", nrep
+		// the registered agent never got the bundle: a "delivered" report about it claims an event that did not happen
+		if sawDelivered {
+			return "delivered-report-without-hand-over", fmt.Sprintf("the node reported the delivery of the bundle (fragment=%v), but the agent registered for its destination never received it", cs.Fragment), nrep
+		}
+		return "harness-not-delivered", "the agent registered for the destination did not receive the bundle (no delivery report was sent either)", nrep
 	}
 	return "", "", nrep
 }
